@@ -159,6 +159,7 @@ def install_monitors():
                    'bankruptcy': p.bankruptcy_price if p.is_open else None,
                    'wallet': p.exchange.wallet_balance, 'total_liq': store.app.total_liquidations,
                    'n_orders': len(rec.orders), 'n_fills': len(rec.fills), 'candle': candle.copy(),
+                   'minute_candle': _minute_candle(rec),
                    'leverage': getattr(p.exchange, 'futures_leverage', None), 'fee': p.exchange.fee_rate}
         rec.refs['in_liq'] = True
         try:
@@ -178,6 +179,21 @@ def install_monitors():
     bm._simulate_price_change_effect = w_spce
     bm._simulate_price_change_effect_multiple_candles = w_spcem
     bm._check_for_liquidations = w_cfl
+
+
+def _minute_candle(rec):
+    """the candle of the minute (or the aggregated candle of the fast-mode chunk) being simulated, as handed to the matching entry point"""
+    if not rec.minutes or not rec.refs.get('in_minute'):
+        return None
+    m = rec.minutes[-1]
+    if m['mode'] == 'step':
+        return m['candle']
+    cs = m['candles']
+    hi, lo = cs[0][3], cs[0][4]
+    for i in range(1, len(cs)):
+        hi = sx.smax(hi, cs[i][3]) if (sx.is_sym(hi) or sx.is_sym(cs[i][3])) else max(hi, cs[i][3])
+        lo = sx.smin(lo, cs[i][4]) if (sx.is_sym(lo) or sx.is_sym(cs[i][4])) else min(lo, cs[i][4])
+    return [cs[0][0], cs[0][1], cs[-1][2], hi, lo, 0.0]
 
 
 def make_candles(rows):
@@ -415,7 +431,7 @@ def rows_from_model(model, n, first_price=100.0, sym_from=0, name='x', ts0=T0, v
     return rows
 
 
-def sparse_rows(ctx, n, sym, move=None, lo=50, hi=200, first_price=100.0, name='x', ts0=T0):
+def sparse_rows(ctx, n, sym, move=None, lo=50, hi=200, first_price=100.0, name='x', ts0=T0, gaps=()):
     """n 1m rows opening at the previous close; minutes listed in `sym` are symbolic (range < move if given), the others flat"""
     rows = []
     prev = first_price
@@ -425,11 +441,16 @@ def sparse_rows(ctx, n, sym, move=None, lo=50, hi=200, first_price=100.0, name='
             c = ctx.real('%s%d_c' % (name, i), lo, hi, npf=True)
             h = ctx.real('%s%d_h' % (name, i), lo, hi, npf=True)
             l = ctx.real('%s%d_l' % (name, i), lo, hi, npf=True)
-            cond = (l <= prev) & (l <= c) & (prev <= h) & (c <= h)
+            o = prev
+            if i in gaps:  # this minute may open away from the previous close
+                o = ctx.real('%s%d_o' % (name, i), lo, hi, npf=True)
+            cond = (l <= o) & (l <= c) & (o <= h) & (c <= h)
             if move is not None:
                 cond = cond & (h - l < move)
+                if i in gaps:
+                    cond = cond & (o - prev < move) & (prev - o < move)
             ctx.constrain(cond)
-            rows.append([ts, prev, c, h, l, 10.0])
+            rows.append([ts, o, c, h, l, 10.0])
             prev = c
         else:
             rows.append([ts, prev, prev, prev, prev, 10.0])
